@@ -526,6 +526,16 @@ void var_opt_union<T, A>::mark_moving_gadget_coercer(var_opt_sketch<T, A>& sk) c
   uint32_t result_r = 0;
   size_t next_r_pos = result_k; // = (result_k+1)-1, to fill R region from back to front
 
+  // the consistency of the transferred weight is checked before anything is allocated:
+  // throwing after the allocations below would leak the new arrays and the items constructed in them
+  double transferred_weight = 0;
+  for (size_t idx = 0; idx < gadget_.h_; ++idx) {
+    if (gadget_.marks_[idx]) transferred_weight += gadget_.weights_[idx];
+  }
+  if (std::abs(transferred_weight - outer_tau_numer_) > 1e-10 * outer_tau_numer_) {
+    throw std::logic_error("unexpected mismatch in transferred weight");
+  }
+
   double* wts = AllocDouble(allocator_).allocate(result_k + 1);
   T* data     = A(allocator_).allocate(result_k + 1);
     
@@ -542,14 +552,11 @@ void var_opt_union<T, A>::mark_moving_gadget_coercer(var_opt_sketch<T, A>& sk) c
     --next_r_pos;
   }
   
-  double transferred_weight = 0;
-
   // insert H region items
   for (size_t idx = 0; idx < gadget_.h_; ++idx) {
     if (gadget_.marks_[idx]) {
       new (&data[next_r_pos]) T(gadget_.data_[idx]);
       wts[next_r_pos] = -1.0;
-      transferred_weight += gadget_.weights_[idx];
       ++result_r;
       --next_r_pos;
     } else {
@@ -560,9 +567,6 @@ void var_opt_union<T, A>::mark_moving_gadget_coercer(var_opt_sketch<T, A>& sk) c
   }
 
   if (result_h + result_r != result_k) throw std::logic_error("H + R counts must equal k");
-  if (std::abs(transferred_weight - outer_tau_numer_) > 1e-10 * outer_tau_numer_) {
-    throw std::logic_error("unexpected mismatch in transferred weight");
-  }
 
   const double result_r_weight = gadget_.total_wt_r_ + transferred_weight;
   const uint64_t result_n = n_;
